@@ -446,7 +446,7 @@ pub struct DistinctSet {
 }
 
 impl DistinctSet {
-    pub const CAP: usize = 8_000_000;
+    pub const CAP: usize = 3_000_000;
     pub fn add(&mut self, h: u64) {
         if self.set.len() < Self::CAP {
             self.set.insert(h);
